@@ -401,7 +401,10 @@ def main():
         for unit, f in violations:
             cex[(unit, f['fn'], f['kind'])] = vcex.find_counterexample(pid, unit, f, seed)
     probes_run = 0
-    if tier == 'thorough' and not violations:
+    if not violations:
+        # both tiers: the property's whole probe catalogue is replayed against the real crate (a BOUNDED conformance run of
+        # the assumed contracts A9-A11 and of the extraction; it takes about a second once the replay binary is built).
+        # Never counted as proved; a reproduced scenario is a violation confirmed on the real code by construction.
         probes_run, bad = vcex.run_all_probes(pid, seed)
         for b in bad:
             if b.get('infra'):
@@ -410,7 +413,7 @@ def main():
             f = dict(fn='probe:' + b['scenario'].get('kind', '?'), src='(real crate, replay binary)', src_line=0, kind='conformance', msg='a probe scenario fails on the real code', text=b['output'])
             violations.append(('probes', f))
             cex[('probes', f['fn'], f['kind'])] = dict(confirmed_on_real_code=True, scenario=b['scenario'], replay_output=b['output'])
-        kani_res = vcex.thorough(pid, units, seed)
+        kani_res = vcex.thorough(pid, units, seed) if tier == 'thorough' else []
         for kr in kani_res:
             if kr.get('status') == 'refuted':
                 f = dict(fn=kr['fn'], src=kr.get('src', ''), src_line=0, kind='kani:' + kr['harness'], msg='Kani harness refuted', text=kr.get('output', '')[-4000:])
@@ -461,7 +464,8 @@ def main():
             units=[dict(unit=r['unit'], status=r['status'], verus_verified=r['verus_verified'], verus_errors=r['verus_errors'], smt_ms=r['smt_ms'],
                         wall_s=round(r['wall'], 2), vacuity_twins=r['twins']) for r in results],
             kani=[{k: v for k, v in kr.items() if k not in ('output',)} for kr in kani_res],
-            bounded=[dict(harness=k['harness'], bound=k.get('bound')) for k in kani_res if not k.get('complete')],
+            bounded=[dict(harness=k['harness'], bound=k.get('bound')) for k in kani_res if not k.get('complete')]
+                    + ([dict(harness='probe catalogue units/probes.json replayed against the real crate (conformance of assumed contracts; not a proof)', bound='%d concrete scenarios (generator-based sweeps count as one)' % probes_run)] if probes_run else []),
             undecided=undecided,
             known_findings=[dict(id=k['id'], fn=f['fn'], kind=f['kind']) for k, f in known_hits] + known_replayed,
             not_decided=pinfo.get('not_decided', []),
